@@ -12,6 +12,9 @@ CRATES = {
 # playback module key -> (crate, rust module path of the harness module)
 MODULES = {
     "iroh_dns__dns": ("iroh-dns", "dns::verif_kani"),
+    "iroh_base__key": ("iroh-base", "key::verif_kani"),
+    "iroh_base__endpoint_addr": ("iroh-base", "endpoint_addr::verif_kani"),
+    "iroh_relay__relay": ("iroh-relay", "protos::relay::verif_kani"),
 }
 
 COMMON_STUBS = ["n0_error::backtrace_enabled -> false"]
@@ -49,5 +52,87 @@ PROPS["C34"] = {
         H("iroh_dns__dns", "c34_add_jitter_small", "delays 1 and 2 are returned unchanged (too small to jitter)", "delay in {1,2}",
           stubs=["rand::random"]),
         W("iroh_dns__dns", "c34_add_jitter_witness"),
+    ],
+}
+
+KEY_ORACLE = "curve25519_dalek::edwards::CompressedEdwardsY::decompress -> validity oracle (nondeterministic, deterministic per byte string, records queries)"
+KEY_ALLVALID = "curve25519_dalek::edwards::CompressedEdwardsY::decompress -> every 32-byte string is a point (harnesses that only need *a* key)"
+BT = "n0_error::backtrace_enabled -> false"
+
+_K = "iroh_base__key"
+_E = "iroh_base__endpoint_addr"
+PROPS["C02"] = {
+    "functions": ["iroh_base::key::PublicKey::{from_bytes,try_from<&[u8]>,try_from<&[u8;32]>,from_str,from_z32,to_z32,fmt_short,as_bytes}",
+                  "iroh_base::key::decode_base32_hex", "iroh_base::key::Signature::{from_bytes,to_bytes,try_from<&[u8]>}",
+                  "iroh_base::endpoint_addr::CustomAddr::{from_parts,to_vec,from_bytes,id,data}",
+                  "iroh_base::endpoint_addr::CustomAddrBytes::{copy_from_slice,as_bytes,len}", "data_encoding HEXLOWER/BASE32_NOPAD/z-base-32 decode_mut/encode (real)"],
+    "bounds": "keys: all 32-byte strings; hex path: all 64 ASCII chars symbolic (thorough) / 10 symbolic chars (quick); base32 path: 8 symbolic chars of 52; "
+              "other lengths: {0,1,2,51,53,63,65,66}; slices 0..=40/70 bytes; CustomAddr: every id, payload length 0..=40 (inline/heap boundary 30/31), all contents",
+    "out": "SecretKey / sign / verify (SHA-512 + scalar multiplication), serde/postcard/JSON forms, Display via fmt, RelayUrl / EndpointAddr containing URLs "
+           "(Url::parse does not finish under CBMC even on concrete input), non-ASCII strings, CustomAddr::from_str / Display",
+    "stubs": [KEY_ORACLE, KEY_ALLVALID, BT],
+    "assumptions": ["curve-point validity is an uninterpreted oracle: what is decided is that iroh consults it on exactly the bytes it accepts"],
+    "harnesses": [
+        H(_K, "c02_key_from_bytes_iff_valid_point", "from_bytes accepts iff the validity oracle accepted exactly these bytes; bytes preserved", "all 32-byte strings"),
+        H(_K, "c02_key_try_from_slice", "TryFrom<&[u8]>: Ok iff len==32 and oracle yes; other lengths never reach the oracle", "slices of 0..=40 symbolic bytes"),
+        H(_K, "c02_key_from_str_hex64_window", "64-char FromStr path == lower-case hex decoding + oracle", "10 symbolic ASCII chars (first/last 5), rest '3'", timeout=400),
+        H(_K, "c02_key_from_str_hex64", "64-char FromStr path == lower-case hex decoding + oracle", "all 64 chars symbolic ASCII", tier="thorough", timeout=1500),
+        H(_K, "c02_key_from_str_hex64_accepts_all_hex", "every all-lower-hex 64-char string parses (given a valid point)", "all 64 chars symbolic hex", tier="thorough", timeout=900),
+        H(_K, "c02_key_from_str_other_lengths", "lengths other than 52/64 are errors without consulting the oracle, no panic", "lengths {0,1,2,51,53,63,65,66}"),
+        H(_K, "c02_key_from_str_base32_window", "52-char base32 path: case-insensitive, canonical trailing bits, oracle consulted on decoded bytes", "8 symbolic ASCII chars, rest 'A'", timeout=600),
+        H(_K, "c02_key_z32_roundtrip", "from_z32(to_z32(k)) == k", "all 32-byte keys", timeout=600),
+        H(_K, "c02_signature_roundtrip", "Signature::from_bytes/to_bytes identity; TryFrom<&[u8]> Ok iff 64 bytes", "all 64-byte strings; slices 0..=70"),
+        W(_K, "c02_key_witness"),
+        H(_E, "c02_custom_addr_binary_roundtrip", "from_bytes(to_vec(a)) == a fieldwise; id/data accessors; inline iff len<=30", "all ids, len 0..=40, all contents"),
+        H(_E, "c02_custom_addr_eq_after_roundtrip", "derived == agrees across the inline/heap boundary", "len 28..=33"),
+        H(_E, "c02_custom_addr_from_bytes_total", "from_bytes: Err iff < 8 bytes, id = LE(first 8), data = rest, no panic", "slices 0..=48 bytes"),
+        W(_E, "c02_custom_addr_witness"),
+    ],
+}
+
+_R = "iroh_relay__relay"
+def _c10():
+    hs = []
+    for n in ["c2r_datagram_len0", "c2r_datagram_len7", "c2r_batch_len7", "r2c_datagram_len7", "r2c_batch_len0", "r2c_batch_len7"]:
+        hs.append(H(_R, "c10_encode_" + n, "encode == wire layout byte for byte; encoded_len exact (to_bytes too on the relay side)", "payload length fixed by name, contents/key/ecn/segment size symbolic"))
+    for n in ["c2r_batch_len40", "r2c_datagram_len40"]:
+        hs.append(H(_R, "c10_encode_" + n, "encode == wire layout byte for byte", "40-byte payload", tier="thorough", timeout=900))
+    hs.append(H(_R, "c10_encode_fixed_frames", "ping/pong/endpoint-gone/status/restarting encode == layout, encoded_len exact", "all field values"))
+    hs.append(H(_R, "c10_encode_health", "Health = type 11 + text", "5 ASCII chars"))
+    for t, l in [(4, 0), (4, 1), (4, 33), (4, 34), (4, 41), (5, 35), (5, 36), (5, 41), (9, 9), (9, 8), (10, 9), (10, 10), (0, 9), (6, 41), (8, 33), (13, 2), (14, 9), (63, 9)]:
+        hs.append(H(_R, "c10_decode_c2r_t%d_len%d" % (t, l), "server decoder == reference parse for frame type %d (types other than 4,5,9,10 are errors)" % t,
+                    "all %d-byte strings with this frame type byte" % l, timeout=300))
+    for t, l in [(6, 0), (6, 33), (6, 34), (6, 41), (7, 35), (7, 36), (7, 41), (8, 32), (8, 33), (8, 34), (9, 9), (9, 10), (10, 9), (10, 8), (12, 8),
+                 (13, 1), (13, 2), (13, 3), (0, 9), (4, 41), (5, 41), (14, 9), (63, 9)]:
+        hs.append(H(_R, "c10_decode_r2c_t%d_len%d" % (t, l), "client decoder == reference parse for frame type %d, both versions (Status only in V2; non relay->client types are errors)" % t,
+                    "all %d-byte strings with this frame type byte" % l, timeout=300))
+    hs.append(H(_R, "c10_decode_r2c_t12_len9", "Restarting decodes to its two big-endian u32 millisecond durations", "all 9-byte strings of type 12", tier="thorough", timeout=900))
+    hs.append(H(_R, "c10_decode_health", "Health only in V1, text preserved, invalid UTF-8 rejected", "type 11 + 4 symbolic bytes, both versions"))
+    hs.append(H(_R, "c10_decode_long_varint_total", "multi-byte varint frame types never panic; out-of-range tags are errors", "12 symbolic bytes, first >= 64", timeout=600))
+    hs.append(H(_R, "c10_limit_agreement", "a frame at the sender-side size limit is accepted by the receiving decoder", "frame of exactly MAX_PACKET_SIZE bytes", timeout=600))
+    hs.append(W(_R, "c10_witness", timeout=600))
+    return hs
+
+PROPS["C10"] = {
+    "functions": ["iroh_relay::protos::relay::{RelayToClientMsg,ClientToRelayMsg}::{write_to,encoded_len,from_bytes,typ,to_bytes}",
+                  "Datagrams::{write_to,encoded_len,from_bytes}", "Status::{write_to,from_bytes}", "protos::common::FrameType::{write_to,from_bytes,encoded_len}",
+                  "KeyCache::key_from_slice (cache disabled)", "noq_proto VarInt encode/decode (real)"],
+    "bounds": "one harness per (frame type, total length): every frame type 4..=13 at its boundary lengths (min-1, min, min+1, 41) plus types 0,14,63 and cross-direction types; all other bytes symbolic; encode payload lengths {0,7,40}, ECN all 4 values, segment size {1,0x0102,65535}; both protocol versions",
+    "out": "payload contents beyond 40 bytes (copied verbatim by put/slice), the LRU-enabled KeyCache, Health texts beyond 5 bytes / non-ASCII",
+    "stubs": [KEY_ORACLE, KEY_ALLVALID, BT],
+    "assumptions": ["round trip is decided as encode == reference layout and decode == reference parse (which implies decode(encode(m)) == m)"],
+    "harnesses": _c10(),
+}
+
+PROPS["C16"] = {
+    "functions": ["iroh_relay::protos::relay::Datagrams::take_segments", "bytes::Bytes::{split_to,len} (real)"],
+    "bounds": "contents 0..=24 bytes (symbolic content), segment size None or 1..=65535, n in 1..=usize::MAX; 3 repeated takes on 0..=12 bytes",
+    "out": "contents longer than 24 bytes (the arithmetic is length-generic; bytes are never inspected)",
+    "stubs": [],
+    "assumptions": [],
+    "harnesses": [
+        H(_R, "c16_take_segments_step_any_n", "one take partitions exactly: taken||rest == original, <= n segments, whole segments, ECN kept, segment_size Some iff > 1 datagram (both parts)", "len 0..=24, ss None|1..=65535, n 1..=usize::MAX"),
+        H(_R, "c16_take_segments_repeated", "three successive takes reassemble the original", "len 0..=12, n1,n2 in 1..=4"),
+        W(_R, "c16_witness"),
     ],
 }
